@@ -1,7 +1,9 @@
 (* Mini/ProofsZapDup.v — a declaration repeated right after itself is rejected as a duplicate at the name of the copy:
    the checks of the copy that precede its declaration succeed as they did for the original (type marks resolve to
-   the same types, initial values have the same interpretations), then the copy's name clashes.  Proofs (used by
-   Mini/ProofsZap.v). *)
+   the same types, initial values have the same interpretations), then the copy's name clashes.  The copy of a
+   subprogram body is a second (empty) body: it is rejected at its name before its declarative part and statements
+   are looked at, because the first body completed the obligation of the package (e_done) or bound the same
+   profile in the current region.  Proofs (used by Mini/ProofsZap.v). *)
 From Coq Require Import List NArith Arith Bool Lia.
 Import ListNotations.
 From RH Require Import Mini.Syntax Mini.Sem Mini.Walk Mini.Faults Mini.ProofsZapSyn Mini.ProofsZapEq Mini.ProofsZapSem
@@ -184,6 +186,16 @@ Qed.
 Lemma ob_eqb_refl : forall x t, ob_eqb (x, [], Some t) (x, [], Some t) = true.
 Proof. intros x t. unfold ob_eqb. rewrite N.eqb_refl, sty_eqb_refl. reflexivity. Qed.
 
+Lemma ob_eqb_refl_gen : forall ob, ob_eqb ob ob = true.
+Proof.
+  intros [[x ps] rt]. unfold ob_eqb. rewrite N.eqb_refl, Nat.eqb_refl. cbn [andb].
+  assert (E : forallb (fun p => sty_eqb (fst p) (snd p)) (combine ps ps) = true).
+  { induction ps as [|t l IH]; [reflexivity|]. cbn [combine forallb fst snd]. rewrite sty_eqb_refl, IH. reflexivity. }
+  rewrite E. cbn [andb]. destruct rt as [t|]; [apply sty_eqb_refl|reflexivity].
+Qed.
+Lemma set_done_tystable : forall G d, tystable G (set_done G d).
+Proof. intros G d. split; [reflexivity|]. intros y b t own Hy _. exact Hy. Qed.
+
 Lemma check_decl_copy : forall r obl G d d' G1,
   check_decl md GE r obl G d = Ok G1 -> sh_decl m d = Some d' ->
   check_decl md GE r obl G1 d' = Bad (o_nid (decl_occ d) + m) Duplicate.
@@ -280,6 +292,50 @@ Proof.
     erewrite declare_dup; [reflexivity | exact H0 | eapply declare_cur; exact H |].
     unfold clash. cbn [b_kind overloadable andb negb orb same_profile].
     rewrite (profile_eqb_same _ _ P2). reflexivity.
+  - (* DFunBody: the copy is a second, empty body *)
+    replace (allowed r (DFunBody (sh o) (map (om_param sh) ps) (om_tmark sh rt) [] SNil))
+      with (allowed r (DFunBody o ps rt ls b)) by reflexivity.
+    rewrite Ea. cbn [guard bind].
+    apply bind_ok in H. destruct H as (u1 & E1 & H). apply bind_ok in H. destruct H as (ty & E2 & H).
+    apply bind_ok in H. destruct H as (u3 & E3 & H). apply guard_ok in E3.
+    cbv zeta in H. apply bind_ok in H. destruct H as (G' & E4 & H).
+    apply bind_ok in H. destruct H as (u5 & _ & H). injection H as H. subst G'.
+    assert (Hst : tystable G G1).
+    { destruct (existsb (ob_eqb (ob_of_sub (o_id o) (map (param_sig GE G) ps) (Some ty))) obl).
+      - apply bind_ok in E4. destruct E4 as (u6 & _ & E4). injection E4 as E4. subst G1. apply set_done_tystable.
+      - eapply declare_tystable; exact E4. }
+    destruct (param_types_copy _ _ _ _ Hst E1) as (P1 & P2). rewrite P1. cbn [bind].
+    rewrite (resolve_stable _ _ _ _ Hst E2). cbn [bind].
+    rewrite param_ok_sh, nonempty_map, E3. cbn [guard bind]. cbv zeta.
+    unfold ob_of_sub in *. rewrite P2. cbn [shift_occ o_id o_nid].
+    destruct (existsb (ob_eqb (o_id o, map ps_ty (map (param_sig GE G) ps), Some ty)) obl) eqn:Eo.
+    + apply bind_ok in E4. destruct E4 as (u6 & _ & E4). injection E4 as E4. subst G1.
+      cbn [set_done e_done existsb]. rewrite ob_eqb_refl_gen. reflexivity.
+    + pose proof (declare_inv _ _ _ _ E4) as (H0 & _).
+      erewrite declare_dup; [reflexivity | exact H0 | eapply declare_cur; exact E4 |].
+      unfold clash. cbn [b_kind overloadable andb negb orb same_profile].
+      rewrite (profile_eqb_same _ _ P2), sty_eqb_refl. reflexivity.
+  - (* DProcBody *)
+    replace (allowed r (DProcBody (sh o) (map (om_param sh) ps) [] SNil)) with (allowed r (DProcBody o ps ls b)) by reflexivity.
+    rewrite Ea. cbn [guard bind].
+    apply bind_ok in H. destruct H as (u1 & E1 & H).
+    apply bind_ok in H. destruct H as (u3 & E3 & H). apply guard_ok in E3.
+    cbv zeta in H. apply bind_ok in H. destruct H as (G' & E4 & H).
+    apply bind_ok in H. destruct H as (u5 & _ & H). injection H as H. subst G'.
+    assert (Hst : tystable G G1).
+    { destruct (existsb (ob_eqb (ob_of_sub (o_id o) (map (param_sig GE G) ps) None)) obl).
+      - apply bind_ok in E4. destruct E4 as (u6 & _ & E4). injection E4 as E4. subst G1. apply set_done_tystable.
+      - eapply declare_tystable; exact E4. }
+    destruct (param_types_copy _ _ _ _ Hst E1) as (P1 & P2). rewrite P1. cbn [bind].
+    rewrite param_ok_sh, E3. cbn [guard bind]. cbv zeta.
+    unfold ob_of_sub in *. rewrite P2. cbn [shift_occ o_id o_nid].
+    destruct (existsb (ob_eqb (o_id o, map ps_ty (map (param_sig GE G) ps), None)) obl) eqn:Eo.
+    + apply bind_ok in E4. destruct E4 as (u6 & _ & E4). injection E4 as E4. subst G1.
+      cbn [set_done e_done existsb]. rewrite ob_eqb_refl_gen. reflexivity.
+    + pose proof (declare_inv _ _ _ _ E4) as (H0 & _).
+      erewrite declare_dup; [reflexivity | exact H0 | eapply declare_cur; exact E4 |].
+      unfold clash. cbn [b_kind overloadable andb negb orb same_profile].
+      rewrite (profile_eqb_same _ _ P2). reflexivity.
 Qed.
 End Dup.
 
